@@ -12,7 +12,6 @@
 package c04
 
 import (
-	"context"
 	"errors"
 	"fmt"
 	"os"
@@ -22,15 +21,13 @@ import (
 	"strings"
 	"testing"
 
-	"github.com/prometheus/common/model"
 	promParser "github.com/prometheus/prometheus/promql/parser"
 	"pgregory.net/rapid"
 
 	"github.com/cloudflare/pint/internal/checks"
-	"github.com/cloudflare/pint/internal/discovery"
-	"github.com/cloudflare/pint/internal/parser"
 	"github.com/cloudflare/pint/internal/parser/utils"
 	"github.com/cloudflare/pint/verifharness/pq"
+	"github.com/cloudflare/pint/verifharness/pq/pintrun"
 	"github.com/cloudflare/pint/verifharness/vstat"
 )
 
@@ -119,56 +116,124 @@ func consistent(s utils.Source, lset map[string]string, rx relax) (bool, string)
 
 var reportedRe = regexp.MustCompile("Template is using `([^`]+)` label but the query results won't have this label")
 
-func templateReports(expr, tmpl string) (labels []string, err error) {
-	yaml := "groups:\n- name: g\n  rules:\n  - alert: A\n    expr: '" + strings.ReplaceAll(expr, "'", "''") + "'\n" +
-		"    annotations:\n      summary: '" + strings.ReplaceAll(tmpl, "'", "''") + "'\n"
-	f := parser.NewParser(false, parser.PrometheusSchema, model.UTF8Validation).Parse(strings.NewReader(yaml))
-	if f.Error.Err != nil || len(f.Groups) != 1 || len(f.Groups[0].Rules) != 1 {
-		return nil, fmt.Errorf("synthetic rule did not parse: %v", f.Error.Err)
+// analysis is everything pint says about one expression, independent of any database.
+type analysis struct {
+	skip     bool
+	panicVal any
+	harness  error
+	names    []string         // "fresh", "alert-pipeline", "record-pipeline" (only those whose sources differ from an earlier one)
+	srcSets  [][]utils.Source // sources per name; srcSets[0] is one LabelsSource call on a freshly parsed query
+	preFail  error            // the analysis mutates the shared query / depends on which check analysed first
+	reported []string         // labels alerts/template reported as non-existent, from the REAL check list run on the alerting rule
+}
+
+var (
+	lastKey      string
+	lastAnalysis *analysis
+)
+
+// analyse derives pint's verdicts (1) from one utils.LabelsSource call on a freshly parsed query and (2, 3) the way
+// `pint lint` does: the rule file is parsed ONCE and the whole default check list runs on that one entry, as alerting
+// rule (annotation tmpl) and as recording rule; alerts/template's problems are taken from that run, and the sources
+// are read again from the shared parsed query afterwards.
+func analyse(expr, tmpl string) *analysis {
+	key := expr + "\x00" + tmpl
+	if lastAnalysis != nil && lastKey == key {
+		return lastAnalysis
 	}
-	r := f.Groups[0].Rules[0]
-	if r.Error.Err != nil || r.AlertingRule == nil || r.AlertingRule.Expr.SyntaxError != nil {
-		return nil, fmt.Errorf("synthetic rule is not a valid alerting rule: %v", r.Error.Err)
+	a := &analysis{}
+	lastKey, lastAnalysis = key, a
+	node, perr := pq.Parse(expr)
+	if perr != nil {
+		a.skip = true
+		return a
 	}
-	if r.AlertingRule.Expr.Value.Value != expr {
-		return nil, fmt.Errorf("expression changed by the YAML round trip: %q", r.AlertingRule.Expr.Value.Value)
+	if msg := pintrun.Idempotent(expr); msg != "" {
+		a.preFail = errors.New(msg)
 	}
-	entry := discovery.Entry{Group: &f.Groups[0], Rule: r, State: discovery.Noop}
-	for _, p := range checks.NewTemplateCheck().Check(context.Background(), entry, nil) {
-		if p.Summary != "template uses non-existent label" {
-			continue
+	srcs, pv := labelsSource(expr, node)
+	if pv != nil {
+		a.skip, a.panicVal = true, pv
+		return a
+	}
+	a.names, a.srcSets = []string{"fresh"}, [][]utils.Source{srcs}
+	sigs := map[string]bool{pintrun.Signature(srcs): true}
+	annotation := tmpl
+	if annotation == "" {
+		annotation = "{{ $labels.a }} {{ $labels.job }}"
+	}
+	for _, kind := range []string{"alert", "record"} {
+		res, rerr := pintrun.Run(kind, expr, annotation)
+		if rerr != nil {
+			a.harness = fmt.Errorf("harness: %v (expr `%s`)", rerr, expr)
+			return a
 		}
-		if p.Severity != checks.Bug {
-			return nil, fmt.Errorf("non-existent label report has severity %v", p.Severity)
+		if kind == "alert" {
+			for _, p := range res.By(checks.TemplateCheckName) {
+				if p.Summary != "template uses non-existent label" {
+					continue
+				}
+				if p.Severity != checks.Bug {
+					a.harness = fmt.Errorf("harness: non-existent label report has severity %v", p.Severity)
+					return a
+				}
+				for _, d := range p.Diagnostics {
+					if m := reportedRe.FindStringSubmatch(d.Message); m != nil {
+						a.reported = append(a.reported, m[1])
+					}
+				}
+			}
+			sort.Strings(a.reported)
 		}
-		for _, d := range p.Diagnostics {
-			if m := reportedRe.FindStringSubmatch(d.Message); m != nil {
-				labels = append(labels, m[1])
+		psrcs, ppv := labelsSource(expr, res.Node())
+		if ppv != nil {
+			a.skip, a.panicVal = true, ppv
+			return a
+		}
+		if after := res.Node().String(); after != node.String() && a.preFail == nil {
+			a.preFail = fmt.Errorf("running pint's check list on the %s rule changed the parsed query all checks share: `%s` became `%s` (checks run: %s)",
+				kind, node.String(), after, strings.Join(res.Checks, ", "))
+		}
+		if sig := pintrun.Signature(psrcs); !sigs[sig] {
+			sigs[sig] = true
+			a.names, a.srcSets = append(a.names, kind+"-pipeline"), append(a.srcSets, psrcs)
+			if a.preFail == nil {
+				a.preFail = fmt.Errorf("the label analysis of `%s` differs after pint's check list ran on the %s rule (same parsed query):\nfresh:\n%safter:\n%s",
+					expr, kind, describeSources(srcs), describeSources(psrcs))
 			}
 		}
 	}
-	sort.Strings(labels)
-	return labels, nil
+	return a
 }
 
 // run applies the oracle to one (expression, database) pair.
 func run(c Case) (inf info, err error) { return runRelaxed(c, relax{}) }
 
 func runRelaxed(c Case, rx relax) (inf info, err error) {
-	node, perr := pq.Parse(c.Expr)
-	if perr != nil {
+	tmpl := ""
+	if c.Kind == "template" {
+		tmpl = c.Tmpl
+	}
+	a := analyse(c.Expr, tmpl)
+	if a.skip {
+		inf.panicValue = a.panicVal
 		return inf, errSkip
 	}
-	srcs, pv := labelsSource(c.Expr, node)
-	if pv != nil {
-		inf.panicValue = pv
-		return inf, errSkip
+	if a.harness != nil {
+		return inf, a.harness
 	}
+	srcs := a.srcSets[0]
 	inf.nsrc = len(srcs)
 	for _, s := range srcs {
 		if !s.IsDead && (s.FixedLabels || len(s.ExcludedLabels) > 0) {
 			inf.claims = true
 		}
+	}
+	if c.Kind == "template" {
+		inf.reported = a.reported
+	}
+	if a.preFail != nil {
+		return inf, a.preFail
 	}
 	res, eerr := pq.Eval(c.DB, c.Expr, pq.T0)
 	if eerr != nil {
@@ -180,40 +245,35 @@ func runRelaxed(c Case, rx relax) (inf info, err error) {
 	}
 	inf.nonEmpty = !res.Empty()
 
-	// general sentence: every returned series is consistent with a live source
-	for _, r := range res.Series {
-		ok := false
-		var why []string
-		for i, s := range srcs {
-			good, reason := consistent(s, r.Labels, rx)
-			if good {
-				ok = true
-				break
+	// general sentence: every returned series is consistent with a live source (for every way pint analysed the query)
+	for vi, vsrcs := range a.srcSets {
+		for _, r := range res.Series {
+			ok := false
+			var why []string
+			for i, s := range vsrcs {
+				good, reason := consistent(s, r.Labels, rx)
+				if good {
+					ok = true
+					break
+				}
+				why = append(why, fmt.Sprintf("source %d: %s", i, reason))
 			}
-			why = append(why, fmt.Sprintf("source %d: %s", i, reason))
-		}
-		if !ok {
-			return inf, fmt.Errorf("the engine returns series %s for `%s`, which no live source pint derived allows (%s)\nsources:\n%sdatabase:\n%s",
-				pq.LabelString(r.Labels), c.Expr, strings.Join(why, "; "), describeSources(srcs), c.DB.String())
+			if !ok {
+				return inf, fmt.Errorf("the engine returns series %s for `%s`, which no live source pint derived (%s) allows (%s)\nsources:\n%sdatabase:\n%s",
+					pq.LabelString(r.Labels), c.Expr, a.names[vi], strings.Join(why, "; "), describeSources(vsrcs), c.DB.String())
+			}
 		}
 	}
 
-	if c.Kind == "template" {
-		reported, terr := templateReports(c.Expr, c.Tmpl)
-		if terr != nil {
-			return inf, fmt.Errorf("harness: %v (expr `%s`)", terr, c.Expr)
-		}
-		inf.reported = reported
-		if len(srcs) == 1 {
-			for _, l := range reported {
-				for _, r := range res.Series {
-					if rx.ignoreName && l == "__name__" {
-						continue
-					}
-					if _, has := r.Labels[l]; has {
-						return inf, fmt.Errorf("alerts/template reports label `%s` as non-existent for the single-branch query `%s`, but the engine returns series %s\nsources:\n%sdatabase:\n%s",
-							l, c.Expr, pq.LabelString(r.Labels), describeSources(srcs), c.DB.String())
-					}
+	if c.Kind == "template" && len(srcs) == 1 {
+		for _, l := range a.reported {
+			for _, r := range res.Series {
+				if rx.ignoreName && l == "__name__" {
+					continue
+				}
+				if _, has := r.Labels[l]; has {
+					return inf, fmt.Errorf("alerts/template (run in pint's check list) reports label `%s` as non-existent for the single-branch query `%s`, but the engine returns series %s\nsources:\n%sdatabase:\n%s",
+						l, c.Expr, pq.LabelString(r.Labels), describeSources(srcs), c.DB.String())
 				}
 			}
 		}
